@@ -28,6 +28,15 @@
 (*   (SetParam) and the trace spec counts the checked events per           *)
 (*   configuration class (EnvClasses) so that a run that never left the    *)
 (*   default configuration is recognised as vacuous.                       *)
+(*   Nor does the statement name a network or a range of heights: which    *)
+(*   chain the application runs as (env.net: the main network, the two     *)
+(*   public test networks, the local network - the networks the code base  *)
+(*   knows by name - or any other chain id) and at which height its        *)
+(*   history starts (env.h0, genesis initial_height) are dimensions of the  *)
+(*   scenario space that P does not read either; the model chooses them in *)
+(*   Init from Networks x Heights0, the driver runs every history under a  *)
+(*   chain id and initial height of its configuration, and the checked     *)
+(*   events are counted per network ("net:..") and for late starts.        *)
 (*                                                                         *)
 (* As-built machine M: staking Slash (validator, unbonding delegations,    *)
 (*   redelegations, with the slash fractions of the parameters), the gov   *)
@@ -41,7 +50,10 @@
 (*   non-vacuity witnesses of P); the gate_* defects make the redirect     *)
 (*   depend on a parameter (the coins are really burned while sending is   *)
 (*   disabled / while the community tax is zero / for denominations that   *)
-(*   are not deposit denominations).                                       *)
+(*   are not deposit denominations); gate_network makes it depend on the   *)
+(*   network and the height (the coins are really burned on the networks   *)
+(*   GateNets below height GateHeight - a "since height h on network n"    *)
+(*   switch of the kind the code base has for other features).             *)
 (*                                                                         *)
 (* A state is a record (amounts are decimal strings, module BigNum)        *)
 (*   supply, distrBal, feeCollector, govBal : [denom -> amount]            *)
@@ -57,7 +69,10 @@
 (*            [sendDefault : BOOLEAN, send : [denom -> "on"|"off"|"unset"],*)
 (*             tax : community tax x 10^18, burnVeto, burnPrevote,         *)
 (*             burnQuorum : BOOLEAN, minDep : [denom -> amount],           *)
-(*             erc20 : BOOLEAN, ...]                                       *)
+(*             erc20 : BOOLEAN,                                            *)
+(*             net : "main"|"testedge1"|"testedge2"|"local"|"other",       *)
+(*             h0 : height of the first block, ...]                        *)
+(*   height : the height of the block the state belongs to                 *)
 (* P reads supply, distrBal, feeCollector, govBal, community, outstanding, *)
 (* bonded, notBonded, vals[..].tokens and ubd only.                        *)
 (***************************************************************************)
@@ -76,11 +91,17 @@ CONSTANTS
     ParamKeys,     \* the parameters that a behaviour may change, subset of AllParamKeys
     MaxParamChanges, \* bound on the number of parameter changes of a behaviour
     Seeded,        \* BOOLEAN: the model starts with unbonding and redelegating stake at both validators
+    Networks,      \* the networks a behaviour may run as, subset of NetNames
+    Heights0,      \* the heights a behaviour may start at
     Defects        \* subset of DefectNames
 
 DefectNames == {"staking_plain_bank", "gov_plain_bank", "no_feepool_update", "bonded_only",
                 "redirect_all", "bond_denom_only",
-                "gate_send_enabled", "gate_community_tax", "gate_deposit_denoms"}
+                "gate_send_enabled", "gate_community_tax", "gate_deposit_denoms", "gate_network"}
+NetNames == {"main", "testedge1", "testedge2", "local", "other"}
+\* the gate_network defect: no redirect on these networks below this height
+GateNets == {"testedge1", "testedge2"}
+GateHeight == 4
 AllParamKeys == {"sendDefault", "send", "tax", "burnVeto", "burnPrevote", "burnQuorum", "minDep", "erc20"}
 
 E18 == BigPow10(18)
@@ -107,6 +128,8 @@ EnvClasses(env, x(_), ds) ==
     \cup (IF BigEq(env.tax, E18) THEN {"tax1"} ELSE {})
     \cup (IF ~env.erc20 THEN {"erc20Off"} ELSE {})
     \cup (IF \E d \in ds : ~BigIsZero(x(d)) /\ BigIsZero(env.minDep[d]) THEN {"nonDepositDenom"} ELSE {})
+    \cup {"net:" \o env.net}
+    \cup (IF env.h0 > 1 THEN {"lateStart"} ELSE {})
 
 ---------------------------------------------------------------------------
 (* P: state invariants *)
@@ -206,6 +229,7 @@ StepClass(e) ==
 Gated(s, c) ==
     \/ "gate_send_enabled" \in Defects /\ \E d \in D(s) : ~BigIsZero(c[d]) /\ ~SendOn(s.env, d)
     \/ "gate_community_tax" \in Defects /\ BigIsZero(s.env.tax)
+    \/ "gate_network" \in Defects /\ s.env.net \in GateNets /\ s.height < GateHeight
 
 Redirects(m) ==
     IF "redirect_all" \in Defects THEN TRUE
@@ -330,7 +354,7 @@ Coins(d, a) == [x \in Denoms |-> IF x = d THEN a ELSE "0"]
 TaxDefault == BigMul("2", BigPow10(16))
 Env0 == [sendDefault |-> TRUE, send |-> [d \in Denoms |-> "unset"], tax |-> TaxDefault,
          burnVeto |-> BurnVeto, burnPrevote |-> BurnPrevote, burnQuorum |-> BurnQuorum,
-         minDep |-> Coins(BondDenom, Amt), erc20 |-> TRUE]
+         minDep |-> Coins(BondDenom, Amt), erc20 |-> TRUE, net |-> "main", h0 |-> 1]
 
 \* delegator a1 starts with 4 Amt bonded at each validator.  In the seeded variant it has in
 \* addition already unbonded Amt from each validator and redelegated Amt to the other one (at
@@ -346,7 +370,8 @@ UbdE0 == IF Seeded THEN <<UbdEntry0("v1"), UbdEntry0("v2")>> ELSE <<>>
 RedE0 == IF Seeded THEN <<RedEntry0("v1", "v2"), RedEntry0("v2", "v1")>> ELSE <<>>
 
 Init ==
-    /\ st = [ supply       |-> [d \in Denoms |-> BigMul(ValStake, "100")],
+    /\ \E net \in Networks, h0 \in Heights0 :
+       st = [ supply       |-> [d \in Denoms |-> BigMul(ValStake, "100")],
               bonded       |-> BigMul(Bonded0, "2"),
               notBonded    |-> IF Seeded THEN BigMul(Amt, "2") ELSE "0",
               distrBal     |-> Zero,
@@ -359,21 +384,23 @@ Init ==
               ubdE         |-> UbdE0,
               redE         |-> RedE0,
               dels         |-> [k \in {Del \o "|v1", Del \o "|v2"} |-> Scale(BigMul(Amt, IF Seeded THEN "3" ELSE "4"))],
-              env          |-> Env0,
+              env          |-> [Env0 EXCEPT !.net = net, !.h0 = h0],
+              height       |-> h0,
               nparam       |-> 0,
               \* model-only fields
               modBal       |-> [m \in Mods |-> [d \in Denoms |-> BigMul(Amt, "3")]],
               gprops       |-> [p \in PropIds |-> [status |-> "none", dep |-> Zero]],
               epoch        |-> 1 ]
     /\ hist = <<>>
-    /\ ops = <<>>
+    /\ ops = <<[op |-> "chain", net |-> st.env.net, h0 |-> st.env.h0]>>    \* the driver's genesis configuration
 
 ZeroRep == [withdrawn |-> Zero]
 
 \* hist and ops are outside the VIEW, so TLC never fingerprints them: comparing a value with itself
 \* forces its lazily represented functions, which TLC's disk queue cannot write otherwise
 Strict(v) == IF v = v THEN v ELSE v
-Log(e, op, s) == /\ st' = s /\ hist' = Append(hist, Strict(e)) /\ ops' = Append(ops, Strict(op))
+\* every event of the model takes (at least) one block
+Log(e, op, s) == /\ st' = [s EXCEPT !.height = @ + 1] /\ hist' = Append(hist, Strict(e)) /\ ops' = Append(ops, Strict(op))
 
 \* staking transactions (P is silent about them; they produce the three kinds of stake)
 Undelegate(v) ==
